@@ -209,6 +209,13 @@ def _simplify(t):
             return it[2][0]
         if it[0] != "call":
             return ("call", ("builtin", "len"), (it,), ())
+    if t[0] == "call" and t[1] == ("builtin", "len") and len(t[2]) == 1 and not t[3] and t[2][0][0] == "call" \
+            and t[2][0][1] in (("builtin", "list"), ("builtin", "tuple")) and len(t[2][0][2]) == 1 and not t[2][0][3] and t[2][0][2][0][0] in ("param", "attr"):
+        return ("call", ("builtin", "len"), (t[2][0][2][0],), ())  # len(list(xs)) of a sequence argument is len(xs)
+    if t[0] == "call" and t[1] == ("builtin", "len") and len(t[2]) == 1 and not t[3] and t[2][0][0] == "call" \
+            and t[2][0][1] in (("builtin", "list"), ("builtin", "tuple")) and len(t[2][0][2]) == 1 and t[2][0][2][0][0] == "call" \
+            and t[2][0][2][0][1] == ("ext", "itertools.repeat") and len(t[2][0][2][0][2]) == 2 and not t[2][0][2][0][3]:
+        return t[2][0][2][0][2][1]  # len(list(repeat(x, n))) is n
     if t[0] == "cmp" and t[2] == t[3] and t[1] in ("eq", "le"):
         return TRUE
     if t[0] == "cmp" and t[2] == t[3] and t[1] in ("ne", "lt"):
